@@ -142,6 +142,11 @@ class Oracle(object):
             self.usable, self.why = False, 'tokenize: %r' % (e,)
             return
         self.sig_at = {t[2]: i for i, t in enumerate(self.sig)}
+        # NAME tokens standing alone in parentheses: `(x)`, `( x )`, `(\n x\n)`
+        self.paren_wrapped = set()
+        for i in range(1, len(self.sig) - 1):
+            if self.sig[i][0] == tokenize.NAME and self.sig[i - 1][1] == '(' and self.sig[i + 1][1] == ')':
+                self.paren_wrapped.add(self.sig[i][2])
         self.sep_lines = [i + 1 for i, ln in enumerate(text.split('\n')) if any(ch in ln for ch in SPLIT_ONLY)]
         self._sites = None
 
@@ -173,6 +178,7 @@ class Oracle(object):
     def sites(self):
         if self._sites is None:
             self._sites = []
+            self.declared = set()         # identifiers named in a global / nonlocal statement
             self.except_kw = set()        # (name, pos of `except`)
             self.except_name_pos = set()  # pos of the name token after `as`
             try:
@@ -234,6 +240,8 @@ class Oracle(object):
                 sep = self.text[self.off(kwt[3]):self.off(nt[2])]
                 self._site('class' if isinstance(node, ast.ClassDef) else 'def', node.name, nt[2], stmt=start,
                            sep=sep, is_async=is_async, kw_pos=kwt[2])
+            elif isinstance(node, (ast.Global, ast.Nonlocal)):
+                self.declared.update(node.names)
             elif isinstance(node, ast.arg):
                 self._site('param', node.arg, (node.lineno, node.col_offset))
             elif isinstance(node, ast.Name) and isinstance(node.ctx, ast.Store):
@@ -305,6 +313,9 @@ def classify(orc, name, kind, P, entry, cursor=None, s3=None):
     if entry == 'location' and cursor and l == cursor[0] and c - MARKLEN >= cursor[1]:
         Q = (l, c - MARKLEN)
         if orc.judge(name, Q)[0] == 'ok' and (s3 is None or (kind, name, Q) in s3):
+            if name in orc.declared:
+                # the binding is made through a global / nonlocal declaration
+                return 'location-marker-shift-global-declared-binding'
             return 'location-marker-shift'
         if s3 is not None and (kind, name, Q) in s3:
             # the unmarked analysis reports Q for this binding and Q is itself wrong: name the underlying mechanism
@@ -346,6 +357,11 @@ def classify(orc, name, kind, P, entry, cursor=None, s3=None):
         if ff:
             return 'formfeed-line-shift'
         return k + '-position-other'
+    if k == 'target' and not site.get('is_except') and orc.inside(P) and P < site['pos'] and site['pos'] in orc.paren_wrapped:
+        between = orc.text[orc.off(P):orc.off(site['pos'])]
+        if re.match(r'\((?:[\s(\\]|#[^\n]*\n)*$', between):
+            # reported at the parenthesis that opens a parenthesised target
+            return 'parenthesised-target-at-open-paren'
     if ff:
         return 'formfeed-line-shift'
     if site.get('is_except'):
@@ -520,6 +536,10 @@ class Monitor(object):
                 p.count('text_searched_bindings_checked(import/def/class)')
             if (name, P) in orc.except_kw:
                 p.count('except_bindings_checked')
+            if kind == 'target' and any(s['pos'] in orc.paren_wrapped for s in orc.by_name.get(name, []) if s['kind'] == 'target'):
+                p.count('bindings_checked_of_identifiers_with_a_parenthesised_target')
+            if name in orc.declared:
+                p.count('bindings_checked_of_global_or_nonlocal_declared_identifiers')
             if not r:
                 stats['bad'] += 1
                 stats['failures'] += 1
@@ -616,6 +636,8 @@ class Monitor(object):
                 if f == own_file:
                     if P[0] == cur[0] and P[1] >= cur[1]:
                         p.count('location_entries_right_of_cursor_on_cursor_line')
+                        if obj.name in orc.declared:
+                            p.count('location_entries_right_of_cursor_on_cursor_line(global/nonlocal declared)')
                         stats['right_of_cursor'] += 1
                         if self.unsaved:
                             p.count('location_entries_right_of_cursor_on_cursor_line(unsaved buffer)')
@@ -721,6 +743,12 @@ PROBES = [
     ('alias-equals-module', 'cur_mod.py', 'from time import time\nimport os.path as os\nimport a.b as a\nfrom b import ab as b\nprint(time, os, a, b)\n'),
     ('other-file-definition-on-cursor-line-number', 'cur_mod.py', "from shim import text_type\ns = text_type('x')\nsquares = [value * value for value in range(3)]\n"),
     ('other-file-long-lines', 'cur_mod.py', 'from wide import w2a, w3c, w4b, w5c\nw2a\nw3c\nprint(w4b)\nw5c\n'),
+    ('global-binding-right-of-cursor', 'cur_mod.py', 'counter = 0\n\n\ndef bump(step):\n    global counter\n    print(counter); counter = step\n    print(counter)\n\n\n'
+                                                     'class G:\n    global cg; print(cg); cg = 1\n\n\ndef outer():\n    nl = 0\n\n    def inner():\n        nonlocal nl; print(nl); nl += 1\n'
+                                                     '    print(nl); return inner\n\n\nprint(counter, cg, outer)\n'),
+    ('parenthesised-targets', 'cur_mod.py', 'total = acc = 0\nn = 2\n(total) += n\n( total ) *= 2\n(\n    acc\n) -= 1\n(x) = 1\n(y): int = 1\nfor (i) in [1]: pass\n'
+                                            'with open(n) as (fh): pass\n[(p), q] = 1, 2\n((r), s) = 1, 2\ndel (x)\nzs = [k for (k) in [1]]\n'
+                                            'print(total, acc, y, i, fh, p, q, r, s, zs)\n'),
     ('except-as', 'cur_mod.py', 'try:\n    pass\nexcept   ValueError   as   e: print(e)\nexcept (KeyError, OSError)as e2:\n    print(e2)\n'),
     ('plain-layouts', 'vfp/cur_mod.py', 'import os, glob as g\nfrom . import alpha, sub as s\nfrom .alpha import (ab,\n                    b as bb)\n\n\n'
                                         '@staticmethod\ndef f(a, b=1, *args, c, **kw):\n    global G; G = 1\n    return a, b, args, c, kw\n\n\n'
@@ -917,6 +945,8 @@ def main(run):
                  'location_entries_right_of_cursor_on_cursor_line', 'except_bindings_checked',
                  'location_entries_checked_in_other_files', 'generated_texts', 'real_files',
                  'positions_compared(unsaved buffer)',
+                 'bindings_checked_of_identifiers_with_a_parenthesised_target',
+                 'location_entries_right_of_cursor_on_cursor_line(global/nonlocal declared)',
                  'other_file_entries_on_the_cursor_line_number_right_of_cursor_plus_mark',
                  'location_entries_right_of_cursor_on_cursor_line(unsaved buffer)'),
         assumptions=[
